@@ -29,10 +29,9 @@ package minersc
 // (they do not touch the transaction, the block or the amounts computed by payFees).
 //@ func GetPhaseNode
 //@   trusted
+//@   ensures result1 == nil ==> result0 != nil && fresh(result0)
 //@   modifies nothing
-//@ func (*MinerSmartContract).setPhaseNode
-//@   trusted
-//@   modifies pn.$all, gn.$all, $saved, $nsaved, $deleted
+// (setPhaseNode: contract in the view-change section below)
 //@ func (*MinerSmartContract).adjustViewChange
 //@   trusted
 //@   modifies gn.$all, $saved, $nsaved, $deleted
@@ -214,3 +213,120 @@ package minersc
 //@   at-call update assert[owner-only] gn.OwnerId == txn.ClientID
 //@   at-call save assert[owner-only-when-saved] gn.OwnerId == txn.ClientID
 //@   ensures[rejected-change-saves-nothing] err != nil ==> $nsaved == old($nsaved)
+
+// ---------------------------------------------------------------- view-change phase machine (C38)
+// Writers of the DKG lists (trie inserts only: trusted frames)
+//@ func updateDKGMinersList
+//@   trusted
+//@   modifies $saved, $nsaved, $deleted
+//@ func updateMinersMPKs
+//@   trusted
+//@   modifies $saved, $nsaved, $deleted
+//@ func updateGroupShareOrSigns
+//@   trusted
+//@   modifies $saved, $nsaved, $deleted
+//@ func updateShardersKeepList
+//@   trusted
+//@   modifies $saved, $nsaved, $deleted
+//@ iface 0chain.net/chaincore/chain/state.StateContextI.GetState
+//@   params self
+//@   pure
+// (name of a function value for log messages: reflect / runtime lookups, no effect)
+//@ func getFunctionName
+//@   trusted
+//@   modifies nothing
+
+// The phase node's phase, phase clock and restart counter are written by setPhaseNode and RestartDKG
+// only (and, for CurrentRound, by whoever loads the node for the block being executed): this is what
+// discharges the frame assumed for the dispatch-table entries setPhaseNode calls dynamically.
+// (the generated decoders write them too - but only into the object they are called on, and the scan
+// also reports every function that hands an existing PhaseNode to a trie read or decoder: none does)
+//@ writers C38 PhaseNode.Phase, PhaseNode.StartRound, PhaseNode.Restarts : (*MinerSmartContract).setPhaseNode, (*MinerSmartContract).RestartDKG, (*PhaseNode).UnmarshalMsg, (*PhaseNode).DecodeMsg
+
+// A restart puts the phase machine back to Start, counts the restart and restarts the phase clock at
+// the current round; a failed restart leaves the phase node as it was.
+//@ func (*MinerSmartContract).RestartDKG
+//@   prop C38
+//@   requires msc != nil && pn != nil && balances != nil && pn.Restarts < MaxInt64
+//@   ensures[restart-goes-to-start] result == nil ==> pn.Phase == 0 && pn.StartRound == pn.CurrentRound && pn.Restarts == old(pn.Restarts) + 1
+//@   ensures[failed-restart-changes-nothing] result != nil ==> pn.Phase == old(pn.Phase) && pn.StartRound == old(pn.StartRound) && pn.Restarts == old(pn.Restarts)
+//@   ensures pn.CurrentRound == old(pn.CurrentRound)
+
+// setPhaseNode: the phase changes only when view change is on and the current phase has run for its
+// configured number of rounds; then it moves to the next phase (wrapping to Start after the last one)
+// when the move condition and the phase function succeeded, or back to Start through RestartDKG; every
+// change restarts the phase clock at the current round. The move conditions and phase functions are
+// dispatch-table entries called through local variables: they are assumed to leave the phase node's
+// phase, clock and restart counter alone (their own frames are what discharges that).
+//@ func (*MinerSmartContract).setPhaseNode
+//@   prop C38
+//@   requires msc != nil && pn != nil && gn != nil && balances != nil && t != nil
+//@   requires 0 <= pn.Phase && pn.Phase < 1000 && 0 <= pn.StartRound && pn.StartRound <= pn.CurrentRound && 0 <= pn.Restarts && pn.Restarts < MaxInt64
+//@   dynamic currentMoveFunc preserves pn.Phase, pn.StartRound, pn.CurrentRound, pn.Restarts
+//@   dynamic phaseFunc preserves pn.Phase, pn.StartRound, pn.CurrentRound, pn.Restarts
+//@   ensures[stays-until-its-rounds-are-over] !(isViewChange && old(pn.CurrentRound - pn.StartRound >= PhaseRounds[pn.Phase])) ==> pn.Phase == old(pn.Phase) && pn.StartRound == old(pn.StartRound) && pn.Restarts == old(pn.Restarts)
+//@   ensures[next-phase-or-back-to-start] pn.Phase == old(pn.Phase) || pn.Phase == 0 || pn.Phase == old(pn.Phase) + 1
+//@   ensures[a-move-restarts-the-phase-clock] pn.Phase != old(pn.Phase) ==> pn.StartRound == pn.CurrentRound
+//@   ensures[the-round-is-not-touched] pn.CurrentRound == old(pn.CurrentRound)
+//@   modifies everything
+
+// DKG transactions: a public key / the shares / a wait confirmation is recorded (the list is written to
+// state) only in its own phase and only for a sender that takes part in this key generation; a public
+// key has exactly T components, a share message at least K-1 entries.
+//@ func getDKGMinersList
+//@   trusted
+//@   ensures result1 == nil ==> result0 != nil && fresh(result0) && result0.SimpleNodes != nil && result0.Waited != nil && result0.RevealedShares != nil
+//@   modifies nothing
+//@ func getMinersMPKs
+//@   trusted
+//@   ensures result1 == nil ==> result0 != nil && result0.Mpks != nil
+//@   modifies nothing
+//@ func getGroupShareOrSigns
+//@   trusted
+//@   ensures result1 == nil ==> result0 != nil && result0.Shares != nil
+//@   modifies nothing
+// (json codecs and constructors of the DKG message types: trusted frames)
+//@ func 0chain.net/chaincore/block.(*MPK).Decode
+//@   trusted
+//@   modifies mpk.$all
+//@ func 0chain.net/chaincore/block.(*MPK).Encode
+//@   trusted
+//@   modifies nothing
+//@ func 0chain.net/chaincore/block.(*ShareOrSigns).Decode
+//@   trusted
+//@   modifies sos.$all
+//@ func 0chain.net/chaincore/block.(*ShareOrSigns).Encode
+//@   trusted
+//@   modifies nothing
+//@ func 0chain.net/chaincore/block.(*ShareOrSigns).Validate
+//@   trusted
+//@   modifies nothing
+//@ func 0chain.net/chaincore/block.NewMpks
+//@   trusted
+//@   ensures result != nil && fresh(result) && result.Mpks != nil
+//@   modifies nothing
+//@ func 0chain.net/chaincore/block.NewGroupSharesOrSigns
+//@   trusted
+//@   ensures result != nil && fresh(result) && result.Shares != nil
+//@   modifies nothing
+//@ func 0chain.net/chaincore/block.NewShareOrSigns
+//@   trusted
+//@   ensures result != nil && fresh(result)
+//@   modifies nothing
+//@ func (*MinerSmartContract).contributeMpk
+//@   prop C38
+//@   requires msc != nil && t != nil && balances != nil
+//@   at-call updateMinersMPKs assert[only-in-the-contribute-phase] pn.Phase == Contribute
+//@   at-call updateMinersMPKs assert[sender-takes-part] t.ClientID in dmn.SimpleNodes
+//@   at-call updateMinersMPKs assert[key-has-t-components] len(mpk.Mpk) == dmn.T
+//@ func (*MinerSmartContract).shareSignsOrShares
+//@   prop C38
+//@   requires msc != nil && t != nil && balances != nil
+//@   at-call updateGroupShareOrSigns assert[only-in-the-publish-phase] pn.Phase == Publish
+//@   at-call updateGroupShareOrSigns assert[sender-takes-part] t.ClientID in dmn.SimpleNodes
+//@   at-call updateGroupShareOrSigns assert[enough-entries] len(sos.ShareOrSigns) >= dmn.K - 1
+//@   at-call updateGroupShareOrSigns assert[content-validated] ok
+//@ func (*MinerSmartContract).wait
+//@   prop C38
+//@   requires msc != nil && t != nil && balances != nil
+//@   at-call updateDKGMinersList assert[only-in-the-wait-phase] pn.Phase == Wait
